@@ -84,3 +84,20 @@ fn c13_collision_vector_i8() {
     assert!(w.z == if d1.z < d2.z { a3.max.z - b3.min.z } else { a3.min.z - b3.max.z });
     assert!(a3.max.z - w.z == b3.min.z || a3.min.z - w.z == b3.max.z);
 }
+
+/// centre / size / half-size on integer boxes (2D and 3D): size is max - min, half-size is that halved (integer division, per axis),
+/// centre is (min + max) halved; the rectangle forms agree on the converted value
+#[kani::proof]
+fn c13_center_size_half_size_int() {
+    fn c() -> i16 { let v: i16 = kani::any(); kani::assume(v >= -128 && v <= 127); v }
+    let a = Aabr { min: Vec2::new(c(), c()), max: Vec2::new(c(), c()) };
+    assert!(a.size() == Extent2::new(a.max.x - a.min.x, a.max.y - a.min.y));
+    assert!(a.half_size() == Extent2::new((a.max.x - a.min.x) / 2, (a.max.y - a.min.y) / 2));
+    assert!(a.center() == Vec2::new((a.min.x + a.max.x) / 2, (a.min.y + a.max.y) / 2));
+    assert!(a.into_rect().extent() == a.size() && a.into_rect().position() == a.min);
+    let b = Aabb { min: Vec3::new(c(), c(), c()), max: Vec3::new(c(), c(), c()) };
+    assert!(b.size() == Extent3::new(b.max.x - b.min.x, b.max.y - b.min.y, b.max.z - b.min.z));
+    assert!(b.half_size() == Extent3::new((b.max.x - b.min.x) / 2, (b.max.y - b.min.y) / 2, (b.max.z - b.min.z) / 2));
+    assert!(b.center() == Vec3::new((b.min.x + b.max.x) / 2, (b.min.y + b.max.y) / 2, (b.min.z + b.max.z) / 2));
+    assert!(b.into_rect3().extent() == b.size() && b.into_rect3().position() == b.min);
+}
